@@ -1,6 +1,541 @@
-//! C09 — not built yet.
-use vcommon::Args;
+//! C09 — derived and built-in `Type` signatures match what is serialized.
+//!
+//! Space (programs × inputs): every type of the generated bank (`typebank.rs`, written by
+//! `engines/gen/types.py`: an enumerated grammar of derived structs / tuple structs / newtypes /
+//! unit and data-carrying enums / dict-structs / std, net and time impls, nesting depth ≤ 2) ×
+//! every value the generator listed for it × both byte orders × a set of start offsets
+//! (alignment positions).
+//!
+//! Oracle, per (type, value, byte order, offset):
+//! * `signature-as-documented`  `T::SIGNATURE` is the signature the documented mapping rules give
+//!   (computed by the generator, not by zvariant);
+//! * `bytes-conform-to-declared-signature`  the reference D-Bus decoder accepts
+//!   `to_bytes(ctxt, &v)` under `T::SIGNATURE` and consumes every byte;
+//! * `decoded-value`  what it decodes is the value tree predicted by the generator;
+//! * `round-trip`  `from_bytes(to_bytes(v)) == v`, consuming every byte.
+//!
+//! `Option<T>` entries exist only in the `option-as-array` build; the main binary runs them in the
+//! `gv-oaa` binary (`ZV_BINS`) as a child (`--child`) and merges the JSON the child prints.
 
-pub fn main(_args: &Args) -> i32 {
-    vcommon::machinery_failure("C09: check not built yet")
+use std::collections::{BTreeMap, BTreeSet};
+
+use serde::{de::DeserializeOwned, Serialize};
+use serde_json::{json, Value as J};
+use vcommon::{catch, hash64, hex, Args, Report, Tier, Violation};
+use zvariant::{serialized::Context, to_bytes, Type, BE, LE};
+
+use crate::{
+    refdbus,
+    rv::{parse_ty, rv_eq, RV},
+    typebank::{self, Meta, Visitor},
+};
+
+#[derive(Clone)]
+struct Filter {
+    index: usize,
+    value: usize,
+    be: bool,
+    offset: usize,
+}
+
+/// Everything a run observes; applied to the `Report` at the end (or printed by the child).
+#[derive(Default)]
+struct Acc {
+    evals: u64,
+    nontrivial: BTreeSet<u64>,
+    outcomes: BTreeMap<String, u64>,
+    samples: Vec<J>,
+    violations: Vec<Violation>,
+    violating_cases: u64,
+}
+
+impl Acc {
+    fn eval(&mut self, n: u64) {
+        self.evals += n;
+    }
+    fn nontrivial(&mut self, h: u64) {
+        self.nontrivial.insert(h);
+    }
+    fn outcome(&mut self, class: &str) {
+        *self.outcomes.entry(class.to_string()).or_insert(0) += 1;
+    }
+    fn sample(&mut self, v: J) {
+        if self.samples.len() < 12 {
+            self.samples.push(v);
+        }
+    }
+    fn violation(&mut self, v: Violation) {
+        self.violating_cases += 1;
+        let same = self.violations.iter().filter(|o| o.clause == v.clause && o.features == v.features).count();
+        if same < 3 && self.violations.len() < 1500 {
+            self.violations.push(v);
+        }
+    }
+    fn has_violations(&self) -> bool {
+        self.violating_cases > 0
+    }
+    fn to_json(&self) -> J {
+        json!({
+            "evals": self.evals,
+            "nontrivial": self.nontrivial.iter().map(|h| format!("{h:016x}")).collect::<Vec<_>>(),
+            "outcomes": self.outcomes,
+            "samples": self.samples,
+            "violating_cases": self.violating_cases,
+            "violations": self.violations.iter().map(|v| json!({
+                "clause": v.clause, "features": v.features, "detail": v.detail, "replay": v.replay,
+            })).collect::<Vec<_>>(),
+        })
+    }
+    fn merge_json(&mut self, j: &J) {
+        self.evals += j["evals"].as_u64().unwrap_or(0);
+        for h in j["nontrivial"].as_array().into_iter().flatten() {
+            if let Some(h) = h.as_str().and_then(|s| u64::from_str_radix(s, 16).ok()) {
+                self.nontrivial.insert(h);
+            }
+        }
+        for (k, n) in j["outcomes"].as_object().into_iter().flatten() {
+            *self.outcomes.entry(k.clone()).or_insert(0) += n.as_u64().unwrap_or(0);
+        }
+        for smp in j["samples"].as_array().into_iter().flatten().take(3) {
+            // make room for a few Option<..> samples
+            if self.samples.len() >= 12 {
+                self.samples.pop();
+            }
+            self.samples.insert(0, smp.clone());
+        }
+        self.violating_cases += j["violating_cases"].as_u64().unwrap_or(0);
+        for v in j["violations"].as_array().into_iter().flatten() {
+            let mut viol = Violation::new(v["clause"].as_str().unwrap_or("?"), v["detail"].as_str().unwrap_or(""), v["replay"].clone());
+            for (k, x) in v["features"].as_object().into_iter().flatten() {
+                viol = viol.feat(k, x.as_str().unwrap_or(""));
+            }
+            self.violations.push(viol);
+        }
+    }
+    fn apply(self, report: &Report) {
+        report.eval(self.evals);
+        report.nontrivial_many(self.nontrivial);
+        for (k, n) in &self.outcomes {
+            report.outcome_n(k, *n);
+        }
+        for smp in self.samples {
+            report.sample(smp);
+        }
+        report.set("violating_cases_seen", json!(self.violating_cases));
+        for v in self.violations {
+            report.violation(v);
+        }
+    }
+}
+
+struct Run {
+    acc: Acc,
+    offsets: Vec<usize>,
+    /// run only entries that exist solely in the option-as-array build
+    only_oaa: bool,
+    filter: Option<Filter>,
+    verbose: bool,
+    programs: u64,
+    bank_types: u64,
+    capped_types: u64,
+    values: u64,
+    kinds: BTreeSet<String>,
+    /// (expected signature, bytes of one LE/offset-0 encoding) of the previous entry: used as the
+    /// negative control (decode these bytes under *this* entry's signature)
+    prev: Option<(String, Vec<u8>)>,
+    sample_kinds: BTreeSet<String>,
+}
+
+fn violation(meta: &Meta, clause: &str, what: String, value: usize, be: bool, offset: usize, extra: J) -> Violation {
+    Violation::new(
+        clause,
+        format!(
+            "type #{} `{}` [{}] value #{} {} offset {}: {}",
+            meta.index,
+            meta.rust,
+            meta.shape,
+            value,
+            if be { "BE" } else { "LE" },
+            offset,
+            what
+        ),
+        json!({
+            "index": meta.index, "value": value, "be": be, "offset": offset,
+            "rust": meta.rust, "shape": meta.shape, "definition": meta.definition,
+            "expected_signature": meta.expected_signature, "observed": extra,
+        }),
+    )
+    .feat("kind", meta.kind)
+    .feat("shape", meta.shape)
+}
+
+impl Visitor for Run {
+    fn visit<T>(&mut self, meta: &Meta, values: fn() -> Vec<(T, RV)>)
+    where
+        T: Serialize + DeserializeOwned + Type + PartialEq + std::fmt::Debug + Clone,
+    {
+        if self.only_oaa && !meta.oaa {
+            return;
+        }
+        if let Some(f) = &self.filter {
+            if f.index != meta.index {
+                return;
+            }
+        }
+        self.bank_types += 1;
+        if !meta.definition.is_empty() {
+            self.programs += 1;
+        }
+        if meta.capped {
+            self.capped_types += 1;
+        }
+        self.kinds.insert(meta.kind.to_string());
+
+        let declared = match catch(|| T::SIGNATURE.to_string()) {
+            Ok(s) => s,
+            Err(p) => {
+                self.acc.eval(1);
+                self.acc.violation(violation(meta, "signature-as-documented", format!("T::SIGNATURE panicked: {p}"), 0, false, 0, json!(null)));
+                return;
+            }
+        };
+        self.acc.eval(1);
+        if declared != meta.expected_signature {
+            self.acc.outcome("signature-differs-from-documented");
+            self.acc.violation(violation(
+                meta,
+                "signature-as-documented",
+                format!("T::SIGNATURE is `{declared}`, the documented mapping gives `{}`", meta.expected_signature),
+                0,
+                false,
+                0,
+                json!({"declared": declared}),
+            ));
+        } else {
+            self.acc.outcome("signature-as-documented");
+        }
+        // The declared signature as a harness type ("" = unit: no bytes).
+        let declared_ty = if declared.is_empty() { None } else { parse_ty(&declared) };
+        if !declared.is_empty() && declared_ty.is_none() {
+            self.acc.violation(violation(
+                meta,
+                "bytes-conform-to-declared-signature",
+                format!("declared signature `{declared}` is not one complete D-Bus type"),
+                0,
+                false,
+                0,
+                json!({"declared": declared}),
+            ));
+            return;
+        }
+        let nontrivial_type = !meta.definition.is_empty() || declared.len() > 1;
+
+        let vals = values();
+        let mut first_bytes: Option<Vec<u8>> = None;
+        for (vi, (v, expected)) in vals.iter().enumerate() {
+            if let Some(f) = &self.filter {
+                if f.value != vi {
+                    continue;
+                }
+            }
+            self.values += 1;
+            let shown = if declared.is_empty() { "()".to_string() } else { expected.show() };
+            if nontrivial_type {
+                self.acc.nontrivial(hash64(&(meta.index, &shown)));
+            }
+            for be in [false, true] {
+                for &offset in &self.offsets {
+                    if let Some(f) = &self.filter {
+                        if f.be != be || f.offset != offset {
+                            continue;
+                        }
+                    }
+                    self.acc.eval(1);
+                    // ---- serialize
+                    let enc = catch(|| {
+                        if be {
+                            to_bytes(Context::new_dbus(BE, offset), v).map(|d| d.bytes().to_vec())
+                        } else {
+                            to_bytes(Context::new_dbus(LE, offset), v).map(|d| d.bytes().to_vec())
+                        }
+                    });
+                    let bytes = match enc {
+                        Ok(Ok(b)) => b,
+                        Ok(Err(e)) => {
+                            self.acc.outcome("serialize-error");
+                            self.acc.violation(violation(meta, "round-trip", format!("to_bytes({v:?}) failed: {e}"), vi, be, offset, json!({"error": e.to_string()})));
+                            continue;
+                        }
+                        Err(p) => {
+                            self.acc.outcome("serialize-panic");
+                            self.acc.violation(violation(meta, "round-trip", format!("to_bytes({v:?}) panicked: {p}"), vi, be, offset, json!({"panic": p})));
+                            continue;
+                        }
+                    };
+                    if !be && offset == 0 && first_bytes.is_none() {
+                        first_bytes = Some(bytes.clone());
+                    }
+                    if self.verbose {
+                        println!("value: {v:?}\nexpected tree: {shown}\ndeclared signature: `{declared}`\nbytes: {}", hex(&bytes));
+                    }
+                    let mut ok = true;
+                    // ---- bytes conform to the declared signature, and carry the predicted value
+                    match &declared_ty {
+                        None => {
+                            if !bytes.is_empty() {
+                                ok = false;
+                                self.acc.violation(violation(meta, "bytes-conform-to-declared-signature",
+                                    format!("empty signature but {} bytes serialized: {}", bytes.len(), hex(&bytes)), vi, be, offset, json!({"bytes": hex(&bytes)})));
+                            }
+                        }
+                        Some(ty) => match refdbus::decode(ty, &bytes, be, offset, 0) {
+                            Err(r) => {
+                                ok = false;
+                                if self.verbose {
+                                    println!("reference decoder under `{declared}`: rejects ({r:?})");
+                                }
+                                self.acc.violation(violation(meta, "bytes-conform-to-declared-signature",
+                                    format!("{v:?} serializes to {} which is not a valid `{declared}` ({r:?})", hex(&bytes)), vi, be, offset,
+                                    json!({"bytes": hex(&bytes), "declared": declared, "reject": format!("{r:?}")})));
+                            }
+                            Ok((got, used)) => {
+                                if self.verbose {
+                                    println!("reference decoder under `{declared}`: {} ({} of {} bytes)", got.show(), used, bytes.len());
+                                }
+                                if used != bytes.len() {
+                                    ok = false;
+                                    self.acc.violation(violation(meta, "bytes-conform-to-declared-signature",
+                                        format!("{v:?} serializes to {} bytes but a `{declared}` ends after {used}: {}", bytes.len(), hex(&bytes)), vi, be, offset,
+                                        json!({"bytes": hex(&bytes), "declared": declared, "used": used})));
+                                } else if !rv_eq(&got, expected) {
+                                    ok = false;
+                                    self.acc.violation(violation(meta, "decoded-value",
+                                        format!("{v:?} serializes to {} = {} under `{declared}`, predicted {}", hex(&bytes), got.show(), shown), vi, be, offset,
+                                        json!({"bytes": hex(&bytes), "declared": declared, "decoded": got.show(), "predicted": shown})));
+                                }
+                            }
+                        },
+                    }
+                    // ---- round trip through the library's own deserializer
+                    let back = catch(|| {
+                        let ctxt = if be { Context::new_dbus(BE, offset) } else { Context::new_dbus(LE, offset) };
+                        let data = zvariant::serialized::Data::new(bytes.clone(), ctxt);
+                        data.deserialize::<T>().map(|(t, n)| (t, n))
+                    });
+                    match back {
+                        Ok(Ok((t, n))) => {
+                            if self.verbose {
+                                println!("deserialized back: {t:?} ({n} bytes)");
+                            }
+                            if t != *v || n != bytes.len() {
+                                ok = false;
+                                self.acc.violation(violation(meta, "round-trip",
+                                    format!("{v:?} -> {} -> {t:?} ({n} of {} bytes)", hex(&bytes), bytes.len()), vi, be, offset,
+                                    json!({"bytes": hex(&bytes), "back": format!("{t:?}"), "used": n})));
+                            }
+                        }
+                        Ok(Err(e)) => {
+                            ok = false;
+                            if self.verbose {
+                                println!("deserialized back: error {e}");
+                            }
+                            self.acc.violation(violation(meta, "round-trip",
+                                format!("{v:?} -> {} does not deserialize: {e}", hex(&bytes)), vi, be, offset,
+                                json!({"bytes": hex(&bytes), "error": e.to_string()})));
+                        }
+                        Err(p) => {
+                            ok = false;
+                            self.acc.violation(violation(meta, "round-trip",
+                                format!("{v:?} -> {} : deserializer panicked: {p}", hex(&bytes)), vi, be, offset,
+                                json!({"bytes": hex(&bytes), "panic": p})));
+                        }
+                    }
+                    self.acc.outcome(if ok { "conforms+round-trips" } else { "violates" });
+                    if ok && !be && offset == 0 && self.sample_kinds.insert(meta.kind.to_string()) {
+                        self.acc.sample(json!({
+                            "type": meta.rust, "shape": meta.shape,
+                            "definition": meta.definition, "signature": declared,
+                            "value": format!("{v:?}"), "tree": shown, "bytes_le": hex(&bytes),
+                        }));
+                    }
+                }
+            }
+        }
+        // ---- negative control: the previous entry's bytes under this entry's signature.  Shows that
+        // the reference decoder + value comparison can tell conforming from non-conforming bytes.
+        if self.filter.is_none() {
+            if let (Some((psig, pbytes)), Some(ty)) = (&self.prev, &declared_ty) {
+                if *psig != declared {
+                    let class = match refdbus::decode(ty, pbytes, false, 0, 0) {
+                        Err(_) => "control:foreign-bytes-rejected",
+                        Ok((_, used)) if used != pbytes.len() => "control:foreign-bytes-length-mismatch",
+                        Ok(_) => "control:foreign-bytes-also-valid",
+                    };
+                    self.acc.outcome(class);
+                }
+            }
+            if let Some(b) = first_bytes {
+                self.prev = Some((declared.clone(), b));
+            }
+        }
+    }
+}
+
+fn offsets(tier: Tier) -> Vec<usize> {
+    tier.pick(vec![0, 1, 4], (0..=8).collect())
+}
+
+fn oaa_bin() -> Option<String> {
+    let bins = std::env::var("ZV_BINS").ok()?;
+    bins.split(',').find_map(|e| e.strip_prefix("gv-oaa=").map(|p| p.to_string()))
+}
+
+fn new_run(tier: Tier, only_oaa: bool) -> Run {
+    Run {
+        acc: Acc::default(),
+        offsets: offsets(tier),
+        only_oaa,
+        filter: None,
+        verbose: false,
+        programs: 0,
+        bank_types: 0,
+        capped_types: 0,
+        values: 0,
+        kinds: BTreeSet::new(),
+        prev: None,
+        sample_kinds: BTreeSet::new(),
+    }
+}
+
+/// `--child`: run the option-as-array-only entries and print one JSON object for the parent.
+fn child(args: &Args) -> i32 {
+    if !cfg!(feature = "option-as-array") {
+        vcommon::machinery_failure("C09 --child needs a binary built with --features option-as-array");
+    }
+    let mut run = new_run(args.tier, true);
+    typebank::visit_all(&mut run);
+    let out = json!({
+        "programs": run.programs, "bank_types": run.bank_types, "capped_types": run.capped_types,
+        "values": run.values, "kinds": run.kinds,
+    });
+    // hand everything observed to the parent
+    println!("C09-CHILD {}", json!({"counts": out, "report": run.acc.to_json()}));
+    0
+}
+
+fn replay(args: &Args, path: &str) -> i32 {
+    let art = vcommon::load_replay(path);
+    let r = &art["replay"];
+    let f = Filter {
+        index: r["index"].as_u64().unwrap_or(0) as usize,
+        value: r["value"].as_u64().unwrap_or(0) as usize,
+        be: r["be"].as_bool().unwrap_or(false),
+        offset: r["offset"].as_u64().unwrap_or(0) as usize,
+    };
+    let meta = typebank::METAS.get(f.index).unwrap_or_else(|| vcommon::machinery_failure("replay: no such bank entry"));
+    println!("replay C09 clause={} type #{} `{}` [{}]", art["clause"].as_str().unwrap_or("?"), meta.index, meta.rust, meta.shape);
+    if !meta.definition.is_empty() {
+        println!("{}", meta.definition);
+    }
+    println!("documented signature: `{}`; value #{} {} offset {}", meta.expected_signature, f.value, if f.be { "BE" } else { "LE" }, f.offset);
+    if meta.oaa && !cfg!(feature = "option-as-array") {
+        // re-run in the option-as-array binary
+        let Some(bin) = oaa_bin() else {
+            vcommon::machinery_failure("replay of an Option<..> entry needs the gv-oaa binary (ZV_BINS)");
+        };
+        let st = std::process::Command::new(bin)
+            .args(["C09", "--tier", args.tier.as_str(), "--replay", path])
+            .status()
+            .unwrap_or_else(|e| vcommon::machinery_failure(&format!("cannot run gv-oaa binary: {e}")));
+        return st.code().unwrap_or(2);
+    }
+    let mut run = new_run(args.tier, false);
+    run.offsets = vec![f.offset];
+    run.filter = Some(f);
+    run.verbose = true;
+    typebank::visit_all(&mut run);
+    if run.acc.has_violations() {
+        for v in &run.acc.violations {
+            println!("observation: VIOLATES clause={} {}", v.clause, v.detail);
+        }
+        1
+    } else {
+        println!("observation: the case holds (signature as documented, bytes conform, value matches, round-trips)");
+        0
+    }
+}
+
+pub fn main(args: &Args) -> i32 {
+    if let Some(p) = &args.replay {
+        return replay(args, p);
+    }
+    if args.extra.iter().any(|a| a == "--child") {
+        return child(args);
+    }
+    let report = Report::new("C09", args.tier, args.seed, "exploration");
+    let mut run = new_run(args.tier, false);
+    typebank::visit_all(&mut run);
+    let (mut programs, mut bank_types, mut capped_types, mut values) = (run.programs, run.bank_types, run.capped_types, run.values);
+    let mut kinds = run.kinds.clone();
+
+    // Option<T> entries: in the option-as-array build
+    let mut oaa_checked = cfg!(feature = "option-as-array");
+    if !oaa_checked {
+        match oaa_bin() {
+            Some(bin) => {
+                let out = std::process::Command::new(&bin)
+                    .args(["C09", "--tier", args.tier.as_str(), "--child"])
+                    .env("VERIF_ROOT", vcommon::verif_root())
+                    .output()
+                    .unwrap_or_else(|e| vcommon::machinery_failure(&format!("cannot run {bin}: {e}")));
+                let text = String::from_utf8_lossy(&out.stdout);
+                let Some(line) = text.lines().find_map(|l| l.strip_prefix("C09-CHILD ")) else {
+                    vcommon::machinery_failure(&format!(
+                        "gv-oaa child printed no result (exit {:?}): {}",
+                        out.status.code(),
+                        String::from_utf8_lossy(&out.stderr)
+                    ));
+                };
+                let j: J = serde_json::from_str(line).unwrap_or_else(|e| vcommon::machinery_failure(&format!("bad child JSON: {e}")));
+                programs += j["counts"]["programs"].as_u64().unwrap_or(0);
+                bank_types += j["counts"]["bank_types"].as_u64().unwrap_or(0);
+                capped_types += j["counts"]["capped_types"].as_u64().unwrap_or(0);
+                values += j["counts"]["values"].as_u64().unwrap_or(0);
+                for k in j["counts"]["kinds"].as_array().into_iter().flatten() {
+                    kinds.insert(k.as_str().unwrap_or("").to_string());
+                }
+                run.acc.merge_json(&j["report"]);
+                oaa_checked = true;
+            }
+            None => report.cap(format!(
+                "the {} `Option<..>` bank entries were not checked: no gv-oaa binary in ZV_BINS (run through ./check)",
+                typebank::BANK_TYPES_OAA_ONLY
+            )),
+        }
+    }
+    if oaa_checked && bank_types != typebank::BANK_TYPES as u64 {
+        vcommon::machinery_failure(&format!("visited {bank_types} bank entries, the bank has {}", typebank::BANK_TYPES));
+    }
+
+    std::mem::take(&mut run.acc).apply(&report);
+    report.set("programs", json!(programs));
+    report.set("bank_types", json!(bank_types));
+    report.set("values", json!(values));
+    report.set("kinds", json!(kinds));
+    report.set("offsets", json!(offsets(args.tier)));
+    report.set("value_list_reduced_types", json!(capped_types));
+    if capped_types > 0 {
+        report.cap(format!(
+            "{capped_types} of {bank_types} bank types have a reduced value list (more than {} values in the full product of the leaf domains, or a component with more than {} values inside a depth-2 type): base-choice coverage instead of the full product",
+            typebank::VALUE_CAP,
+            typebank::COMPONENT_CAP
+        ));
+    }
+    report.assume("refdbus (reference D-Bus unmarshaller, audited against libdbus in C01/C03) decides conformance of bytes to a signature");
+    report.assume("the generator's mapping rules (engines/gen/types.py header) are the documented ones: zvariant_derive docs, zvariant::Type docs, serde's data model for std types");
+    report.assume("64-bit target: usize/isize are 8 bytes");
+    report.finish(
+        "cases = (bank type, listed value, byte order, start offset); the bank is the generator's enumeration of type definitions (primitives, library leaves, std/net/time impls, Vec/HashMap/Option/tuple, named/tuple/newtype/unit structs, repr/index/string unit enums, data enums, dict-structs; depth 2 = each outer constructor over each depth-1 representative); values = product of leaf domains (ints {0,±1,min,max}, strings {\"\",\"a\",\"é/€\"}, lengths {0,1,2}); plus one signature comparison per type. distinct_nontrivial = distinct (type, value tree) pairs whose type is a generated definition or has a container signature (hash set)",
+        true,
+    )
 }
